@@ -53,7 +53,7 @@ func (p *Prog) VerifyFunc(fi *FuncInfo, fc *FuncContract) (res *FuncResult) {
 	c := NewCtx()
 	x := &fnv{p: p, fi: fi, fc: fc, pkg: fi.Pkg, info: fi.Pkg.TypesInfo, c: c, h: NewHeap(c), counters: map[string]int{},
 		loopOrd: map[ast.Node]int{}, callOrd: map[string]int{}, boxedVar: map[types.Object]bool{}, assumed: map[string]bool{},
-		atDone: map[*AtClause]int{}, litOfVar: map[types.Object]*ast.FuncLit{}}
+		atDone: map[*AtClause]int{}, litOfVar: map[types.Object]*ast.FuncLit{}, activeLoops: map[int]*loopCtx{}}
 	defer func() {
 		if r := recover(); r != nil {
 			switch e := r.(type) {
@@ -410,7 +410,7 @@ func (p *Prog) VerifyLemma(lm *Lemma) (res *FuncResult) {
 	fi := &FuncInfo{Pkg: pk, Key: "lemma." + lm.Name}
 	x := &fnv{p: p, fi: fi, fc: &FuncContract{PkgPath: lm.PkgPath, Props: lm.Props, Skip: map[string]bool{}}, pkg: pk, info: pk.TypesInfo, c: c, h: NewHeap(c),
 		counters: map[string]int{}, loopOrd: map[ast.Node]int{}, callOrd: map[string]int{}, boxedVar: map[types.Object]bool{}, assumed: map[string]bool{},
-		atDone: map[*AtClause]int{}, litOfVar: map[types.Object]*ast.FuncLit{}}
+		atDone: map[*AtClause]int{}, litOfVar: map[types.Object]*ast.FuncLit{}, activeLoops: map[int]*loopCtx{}}
 	defer func() {
 		if r := recover(); r != nil {
 			switch e := r.(type) {
